@@ -65,13 +65,21 @@ def run_case(case, rec):
     try:
         ws = Workspace.create(path)
         inputs, spec = build_inputs(ws, cls, case["n_inputs"], rng, rec)
+        before = {str(o.uid): snap.entity_record(o) for o in inputs}
+        before_kids = {str(c.uid): snap.entity_record(c) for o in inputs for c in o.children if not snap._is_pg(c)}
+        if rng.random() < 0.35:
+            # the inputs come from a stored file and nobody has looked at their data yet (the snapshots above were taken before)
+            uids = [o.uid for o in inputs]
+            del inputs
+            ws.close()
+            ws = Workspace(path, mode="r+")
+            inputs = [ws.get_entity(u)[0] for u in uids]
+            rec.see("merges-of-reloaded-inputs")
         rec.see("merges")
         rec.see("merges:" + cls)
         if case["n_inputs"] >= 3:
             rec.see("three-or-more-inputs")
         merger = {"Points": PointsMerger, "Curve": CurveMerger, "Surface": SurfaceMerger, "DrapeModel": DrapeModelMerger}[cls]
-        before = {str(o.uid): snap.entity_record(o) for o in inputs}
-        before_kids = {str(c.uid): snap.entity_record(c) for o in inputs for c in o.children if not snap._is_pg(c)}
         dig0 = snap.node_digests(snap.raw_snapshot(ws.geoh5))
         try:
             merged = merger.merge_objects(ws, inputs, name="merged")
@@ -125,6 +133,7 @@ def build_inputs(ws, cls, n_inputs, rng, rec):
     from geoh5py.objects import Curve, DrapeModel, Points, Surface
 
     inputs, spec = [], {"inputs": [], "data_names": set()}
+    alt_types = rng.random() < 0.3
     closed_loops = cls == "Curve" and rng.random() < 0.25  # every input a closed loop: the merged curve has as many cells as vertices
     if closed_loops:
         rec.see("closed-loop-cases")
@@ -184,16 +193,23 @@ def build_inputs(ws, cls, n_inputs, rng, rec):
                 if cnt == 0:
                     continue
                 kind = "int" if nm == "gamma" else "float"
+                tname = nm
                 if kind == "float":
                     vals = np.array([vtag(k, i) + (0.25 if assoc == "CELL" else 0.5) + names.index(nm) * 0.01 for i in range(cnt)])
                     if rng.random() < 0.3:
                         vals[rng.randrange(cnt)] = np.nan
-                    obj.add_data({nm: {"values": vals.copy(), "association": assoc}})
+                    extra = {}
+                    if alt_types and rng.random() < 0.4:
+                        # same data name, another data type (same primitive type): merged separately ("per name, type and association")
+                        tname = nm + "_ppb"
+                        extra = {"entity_type": {"name": tname, "primitive_type": "FLOAT"}}
+                        rec.see("same-name-other-type")
+                    obj.add_data({nm: {"values": vals.copy(), "association": assoc, **extra}})
                 else:
                     vals = np.array([int(vtag(k, i)) for i in range(cnt)], dtype="int32")
                     obj.add_data({nm: {"values": vals.copy(), "association": assoc, "type": "integer"}})
-                s["data"][nm] = {"assoc": assoc, "kind": kind, "values": vals.tolist()}
-                spec["data_names"].add((nm, assoc, kind))
+                s["data"][nm] = {"assoc": assoc, "kind": kind, "values": vals.tolist(), "tname": tname}
+                spec["data_names"].add((nm, assoc, kind, tname))
         inputs.append(obj)
         spec["inputs"].append(s)
     present = [set(s["data"]) for s in spec["inputs"]]
@@ -237,9 +253,9 @@ def judge_data(rec, merged, spec, cls, int_ndv, where, cell_count, cell_index=No
     kids = {}
     for c in merged.children:
         if hasattr(c, "values") and hasattr(c, "association") and not snap._is_pg(c):
-            kids.setdefault((c.name, c.association.name), []).append(c)
-    for nm, assoc, kind in sorted(spec["data_names"]):
-        lst = kids.get((nm, assoc), [])
+            kids.setdefault((c.name, c.association.name, c.entity_type.name), []).append(c)
+    for nm, assoc, kind, tname in sorted(spec["data_names"]):
+        lst = kids.get((nm, assoc, tname), [])
         if len(lst) != 1:
             rec.fail("C16.data", op=where, cls=cls, attr="data-count", detail=f"{len(lst)} merged data named {nm!r} ({assoc}) for one (name, type, association) class")
             continue
@@ -248,7 +264,7 @@ def judge_data(rec, merged, spec, cls, int_ndv, where, cell_count, cell_index=No
         for s in spec["inputs"]:
             cnt = s["ncells"] if assoc == "CELL" else s["n"]
             dd = s["data"].get(nm)
-            if dd is not None and dd["assoc"] == assoc:
+            if dd is not None and dd["assoc"] == assoc and dd.get("tname", nm) == tname:
                 exp += dd["values"]
             else:
                 exp += [float("nan") if kind == "float" else int_ndv] * cnt
